@@ -4,5 +4,7 @@ CONSTANTS
   Ns <- N17
   MaxMsgs = 9
   CasesPerBehaviour = 30
+  MHeads = {1}
+  MChanges = {0}
 INVARIANT Dump
 CHECK_DEADLOCK FALSE
